@@ -283,4 +283,6 @@ func rulesC20(e *Engine, r *Report) {
 	// ---------------------------------------------------------------- R20.8
 	r.Rule("R20.8", "cleaning cannot wedge the receiver: while a method of the stage holds one of the stage's mutexes it calls nothing on the same stage that acquires that mutex again - a read lock taken inside a read lock (sync.RWMutex) blocks for ever as soon as a writer (a file being received: toCache) is queued in between, and then every cache user hangs")
 	e.checkNoReentrantLocking(r, "R20.8", 15, "stage")
+	// ---------------------------------------------------------------- R20.9
+	e.shareRule(r, "C06", "R06.9", "R20.9", "the cleaner decides with the companion's hash: whatever produces the companion record it reads - the current format, or the upgrade of a legacy-format companion - carries the hash over (an empty hash makes the log look-up match ANY record of the name, and the partial and companion of a version still being received are deleted)")
 }
